@@ -241,6 +241,7 @@ PROPS["C02"] = dict(
         H("c02_max::max_bush", tier="thorough", instance="root - {a - {a::c, a::d}, b - b::e}", symbolic="6 levels", bound="unwind 8, recursion 3", unwindset=SHAPE_REC(3), timeout=3600, mem_gb=14),
         # enabled() on the routing instances
         H("c01_tree::tree_a", instance="enabled() on declared: a; " + _T_SMALL, symbolic=_tree_sym, bound="unwind 9", unwindset=TREE_REC(1), **_tree),
+        H("c01_tree::tree_ab", instance="enabled() on declared: a::b (a is an implied, never declared node and keeps the root's level); " + _T_SMALL, symbolic=_tree_sym, bound="unwind 9", unwindset=TREE_REC(2), **_tree),
         H("c01_tree::tree_a_ab", tier="thorough", instance="enabled() on declared: a, a::b", symbolic=_tree_sym, bound="unwind 9", unwindset=TREE_REC(2), **_tree),
         H("c01_tree::tree_sib", tier="thorough", instance="enabled() on declared: a::b, a::bc", symbolic=_tree_sym, bound="unwind 9", unwindset=TREE_REC(2), **_tree),
     ],
